@@ -163,6 +163,11 @@ class BaseConnection(object):
         if not self.writer or not self.reader or self.reader.at_eof():
             return True
 
+        # at_eof() is false while received data is unread: a peer that
+        # says goodbye before it closes ("421 Timeout.") has closed as well.
+        if getattr(self.reader, '_eof', False):
+            return True
+
         # A connection reset by the peer is not at EOF: the reader holds
         # the error and the transport is closed.
         return self.reader.exception() is not None \
